@@ -3,7 +3,7 @@
    this directory so that model.ml lands here. *)
 Require Extraction.
 Require Import ExtrOcamlBasic.
-From Moss Require Import FlatRun TreeRun Index OpenDir Codec FileFormat Previous Faults Sync Iterator History.
+From Moss Require Import FlatRun TreeRun Index OpenDir Codec FileFormat Previous Faults Sync Iterator History Refs.
 Extraction Language OCaml.
 Extraction "model.ml" fstep fcheck finit calc_partial_start calc_target_top_level
   trstep trinit model_canon canonical store_canon reads_of ref_reads rnode_eqb t_coll_get
@@ -11,4 +11,4 @@ Extraction "model.ml" fstep fcheck finit calc_partial_start calc_target_top_leve
   scan_footer_bytes scan_footer_repaired_bytes roundtrip_check Codec.encode Codec.decode
   pageAlignCeil pageAlignFloor pageOffset load_segment persist_segment persist_segment_loc mutate_guard
   h_append h_compact_partial h_compact_full h_revert h_previous h_walk llv sget sort_seg run_round
-  run_iter run_iter_pre_fix run_spec live_range iter_list sy_step sy_init sy_run check_hist snap_atomic snap_realtime.
+  run_iter run_iter_pre_fix run_spec live_range iter_list sy_step sy_init sy_run check_hist snap_atomic snap_realtime refs_check.
